@@ -146,6 +146,21 @@ var c11Injectors = []c11Injector{
 		ms.Mods = append(ms.Mods, sub)
 		return true
 	}},
+	{"grouping-cycle-inside-a-submodule-through-the-belongs-to-prefix", true, func(r *core.Rng, ms *yang.ModSet) bool {
+		// both groupings live in the submodule; the uses statements name them with the belongs-to prefix,
+		// which may or may not be the module's own prefix
+		m := modA(ms)
+		bt := core.Pick(r, []string{pfx(m), "own"})
+		sub := yang.S("submodule", "sub-cyc", yang.S("belongs-to", m.Arg, yang.S("prefix", bt)),
+			yang.S("grouping", "sga", yang.S("container", "sac", yang.S("uses", bt+":sgb"))),
+			yang.S("grouping", "sgb", yang.S("uses", bt+":sga")))
+		if r.Bool() {
+			sub.Add(yang.S("container", "sub-cyc-use", yang.S("uses", core.Pick(r, []string{"sga", bt + ":sgb"}))))
+		}
+		addBody(m, yang.S("include", "sub-cyc"))
+		ms.Mods = append(ms.Mods, sub)
+		return true
+	}},
 	{"typedef-self", true, func(r *core.Rng, ms *yang.ModSet) bool {
 		addBody(modA(ms), yang.S("typedef", "cyt", yang.S("type", "cyt")), yang.S("leaf", "cyl", yang.S("type", "cyt")))
 		return true
